@@ -398,7 +398,7 @@ def kmerQuery (x : Ctx) : Q String := do
   let some st := storageOf stTok | throw (.badOp "storage")
   let usizeOnly := ["tryseq", "deref", "toseq", "int", "fromint", "rev", "revmut", "eqstr", "eqseq", "iterhash"]
   let dnaOnly := ["comp", "revcomp", "compmut", "revcompmut", "canon"]
-  let ordOnly := ["cmp", "minmax"]
+  let ordOnly := ["cmp", "minmax", "minafter"]
   let c := x.c
   let fits (sb : Nat) : Bool := 1 ≤ k ∧ k * c.width ≤ sb
   if usizeOnly.contains op then
@@ -464,8 +464,20 @@ def kmerQuery (x : Ctx) : Q String := do
       let a ← qlift num; let b ← qlift num
       let a := a % 2^st.bits; let b := b % 2^st.bits
       pure s!"{ordStr (compare a b)} {boolStr (a < b)} {boolStr (a ≤ b)} true"
+    | "minafter" => do
+      let n ← qlift num
+      let s ← qlift parseS; let bs ← qr (evalS x s)
+      if st ≠ .usize then throw .unsup
+      if k = 0 ∨ k > 64 then throw .unsup
+      if ¬ fits 64 then throw .unsup
+      let ks ← qres (seqRes (Kmer.kmers x.p c k bs))
+      let rest := ks.drop n
+      let mn := match rest.min? with | some m => toString m | none => "none"
+      let mx := match rest.max? with | some m => toString m | none => "none"
+      pure s!"{mn} {mx} {rest.length}"
     | _ => do
       let s ← qlift parseS; let bs ← qr (evalS x s)
+      if st ≠ .usize then throw .unsup
       if k = 0 ∨ k > 64 then throw .unsup
       if ¬ fits 64 then throw .unsup
       let ks ← qres (seqRes (Kmer.kmers x.p c k bs))
@@ -604,6 +616,15 @@ def query (x : Ctx) (q : String) : Q String := do
     let e := boolStr (bs == fresh)
     let cmp := if isOrd x.name then boolStr (Seq.cmp bs fresh == .eq && Seq.cmp fresh bs == .eq) else "na"
     pure s!"{e} {e} {e} {boolStr (Seq.hashEvents c bs == Seq.hashEvents c fresh)} {cmp} {e} {boolStr (content c bs == content c fresh)}"
+  | "eqwin" => do
+    let pr ← qlift next
+    let a1 ← qlift num; let b1 ← qlift num; let a2 ← qlift num; let b2 ← qlift num
+    let v ← qlift parseV; let bs ← qr (evalV x v)
+    if ¬ ["slice_slice", "refslice_slice", "refslice_refslice", "ne"].contains pr then throw (.badOp "pairing")
+    let l ← qres (Seq.index x.p c bs .range a1 b1)
+    let r ← qres (Seq.index x.p c bs .range a2 b2)
+    let e := l == r
+    pure s!"{boolStr e} {if e then boolStr (Seq.hashEvents c l == Seq.hashEvents c r) else "-"}"
   | "hasheq" => do
     let a ← qlift parseS; let b ← qlift parseS
     let l ← qr (evalS x a); let r ← qr (evalS x b)
